@@ -169,25 +169,6 @@ theorem step_segment (h : Pre e o) : StepOk e o (endStep cfg mss e o .segment) :
   · refine ⟨by rw [hrcv]; exact h.wfe.rcv, by rw [hsi.nxt]; exact wadd_lt _ _, ?_⟩
     rw [heq]; exact h.wfe.una
 
-theorem step_probe (h : Pre e o) : StepOk e o (endStep cfg mss e o .probe) := by
-  simp only [endStep]
-  split
-  rotate_left
-  · exact stepOk_refl h
-  rename_i hc
-  obtain ⟨b, f, k, hsi⟩ := h.send
-  obtain ⟨hsend, hseg⟩ := send_probe cfg.recvCap 0 hsi h.nwe h.wfe.rcv hc
-  have hg : SendGrow e { e with tcb := e.tcb.probed, out := e.out ++ [e.tcb.probeSeg cfg.recvCap 0] } :=
-    SendGrow.refl_of rfl rfl id
-  obtain ⟨rc, hri⟩ := h.recv
-  refine ⟨hg, ⟨b, f, k, hsend.congr ⟨rfl, rfl, rfl, rfl, rfl, rfl, rfl⟩ rfl rfl⟩, ?_,
-    ⟨rc, hri.congr_r ⟨rfl, rfl, rfl, rfl, id⟩ rfl⟩, ⟨h.wfe.rcv, h.wfe.nxt, h.wfe.una⟩⟩
-  intro sg hsg
-  simp only [List.mem_append, List.mem_singleton] at hsg
-  rcases hsg with hsg | rfl
-  · exact (h.wire sg hsg).congr_s hg
-  · exact hseg.congr_s hg
-
 theorem step_abort (h : Pre e o) (b : Bool) : StepOk e o { e with tcb := e.tcb.abort b } := by
   have hg : SendGrow e { e with tcb := e.tcb.abort b } := SendGrow.refl_of rfl rfl id
   obtain ⟨bs, f, k, hsi⟩ := h.send
@@ -274,7 +255,10 @@ theorem step_recv (h : Pre e o) (i : Nat) : StepOk e o (endStep cfg mss e o (.re
         · exact h.wfe.rcv
       have hnxtlt : (e.tcb.handleEstablished cfg sg).1.sndNxt < M32 := by rw [hsend.nxt]; exact wadd_lt _ _
       have hunalt : (e.tcb.handleEstablished cfg sg).1.sndUna < M32 := by rw [hsend.una]; exact wadd_lt _ _
-      have hfin : ∀ (ex : List Seg), (∀ s' ∈ ex, s' = (e.tcb.handleEstablished cfg sg).1.ackSeg cfg.recvCap 0 0) →
+      have hmaxlt : (e.tcb.handleEstablished cfg sg).1.sndMax < M32 := by
+        obtain ⟨km, _, hm2, _, _⟩ := hsend.mx
+        rw [hm2]; exact wadd_lt _ _
+      have hfin : ∀ (ex : List Seg), (∀ s' ∈ ex, s' = (e.tcb.handleEstablished cfg sg).1.replySeg cfg sg 0 0) →
           StepOk e o { e with tcb := (e.tcb.handleEstablished cfg sg).1, out := e.out ++ ex } := by
         intro ex hex
         have hg : SendGrow e { e with tcb := (e.tcb.handleEstablished cfg sg).1, out := e.out ++ ex } :=
@@ -286,7 +270,11 @@ theorem step_recv (h : Pre e o) (i : Nat) : StepOk e o (endStep cfg mss e o (.re
         rcases hs' with hs' | hs'
         · exact (h.wire s' hs').congr_s hg
         · rw [hex s' hs']
-          exact SegOk.ackSeg _ _ _ _ _ hnxtlt hrcvlt
+          obtain ⟨f1, f2, f3, _, f5⟩ := Tcb.replySeg_facts cfg (e.tcb.handleEstablished cfg sg).1 sg 0 0
+          refine SegOk.ctl _ ?_ (by rw [f3]; exact hrcvlt) f1 f2
+          rcases f5 with f5 | f5 <;> rw [f5]
+          · exact hnxtlt
+          · exact hmaxlt
       dsimp only
       split
       · exact hfin [_] (by intro s' hs'; simpa using hs')
@@ -302,7 +290,6 @@ theorem endStep_ok (h : Pre e o) (a : Act) (hnw' : NoWrap (endStep cfg mss e o a
   | shutdown => exact step_shutdown h
   | segment => exact step_segment h
   | retx a b => exact step_retx h a b
-  | probe => exact step_probe h
   | recv i => exact step_recv h i
   | abort b => simpa [endStep] using step_abort h b
   | emitCtl sg => exact step_emitCtl h sg
